@@ -188,8 +188,10 @@ var commands = [][]string{{"top"}, {"tree"}, {"peek=."}, {"traces"}, {"tags"}, {
 	{"list=."}, {"weblist=."}, {"disasm=."}, {"top", "lines"}, {"top", "files"}, {"top", "addresses", "noinlines"}}
 
 // option menus
-var regexps = []string{"", "a", "(", "*", "[", "a|", "\\", ".*", "(?i)A", "\x00", "é", "a{1000}", "(a|b)*c"}
-var tagFilters = []string{"", "v", "k=v", "k=v,w", "v,w", "k:v", "5", "5:", ":5", "2:8", "k=2:8", "5kb", "k=1mb:", "1b:2kb", "99999999999999999999", "-5kb:", "1:2:3", ":", "=", "k=", "=v", "5xb:6yb", "1e9", "0x10:", "9223372036854775807kb:"}
+var regexps = []string{"", "a", "(", "*", "[", "a|", "\\", ".*", "(?i)A", "\x00", "é", "a{1000}", "(a|b)*c",
+	// longer than the 80 bytes a legend line may take: in bytes but not in characters, at the cut, in both
+	strings.Repeat("é", 45), strings.Repeat("a", 73) + "é", strings.Repeat("日本語|", 9) + "x", strings.Repeat("a", 100), strings.Repeat("é", 100)}
+var tagFilters = []string{"", "v", "k=v", "k=v,w", "v,w", "k:v", "5", "5:", ":5", "2:8", "k=2:8", "5kb", "k=1mb:", "1b:2kb", "99999999999999999999", "-5kb:", "1:2:3", ":", "=", "k=", "=v", "5xb:6yb", "1e9", "0x10:", "9223372036854775807kb:", strings.Repeat("é", 45), "k=" + strings.Repeat("日本", 15)}
 
 func optionMenu() map[string][]string {
 	m := map[string][]string{}
